@@ -1,0 +1,21 @@
+//go:build verif
+
+// Contracts for package type1005, checked by /verif/govc (see /verif/DESIGN.md).
+// This file contains only comments; it is compiled only with -tags verif and
+// has no effect on the package.
+
+package type1005
+
+// Layout after the 24-bit leader: type 12, station 12, ITRF year 6, 4 reserved,
+// X 38 (signed), 2 reserved, Y 38, 2 reserved, Z 38: 152 bits.
+//@ func GetMessage
+//@ ensures[C05,C20] (r1 == nil) == (8*len(bitStream) - 48 >= 152 && bits(bitStream, 24, 12) == 1005)
+//@ ensures r1 == nil ==> r0 != nil && fresh(r0)
+//@ ensures r1 != nil ==> r0 == nil
+//@ ensures[C05] r1 == nil ==> r0.MessageType == 1005 && r0.StationID == bits(bitStream, 36, 12) && r0.ITRFRealisationYear == bits(bitStream, 48, 6) && r0.Ignored1 == bits(bitStream, 54, 4)
+//@ ensures[C05] r1 == nil ==> r0.AntennaRefX == sbits(bitStream, 58, 38) && r0.Ignored2 == bits(bitStream, 96, 2) && r0.AntennaRefY == sbits(bitStream, 98, 38) && r0.Ignored3 == bits(bitStream, 136, 2) && r0.AntennaRefZ == sbits(bitStream, 138, 38)
+//@ ensures[C05] r1 == nil ==> r0.logLevel == logLevel
+
+//@ func (*Message).String
+//@ requires[C07] message != nil
+//@ arith wrap
